@@ -6,6 +6,6 @@ cd "$(dirname "$0")"
 export CARGO_NET_OFFLINE=true
 ( cd coq && coq_makefile -f _CoqProject -o Makefile >/dev/null && timeout 3000 make -j16 >/dev/null )
 mkdir -p .cache
-( cd harness && CARGO_TARGET_DIR=../.cache/target RUSTFLAGS="--cfg corgi_verif" cargo build --offline --quiet ) || true
-( cd harness && CARGO_TARGET_DIR=../.cache/target_f32 RUSTFLAGS="--cfg corgi_verif" cargo build --offline --quiet --features f32 ) || true
+( cd harness && CARGO_TARGET_DIR=../.cache/target RUSTFLAGS="--cfg corgi_verif" cargo build --offline --quiet 2>/dev/null ) || true
+( cd harness && CARGO_TARGET_DIR=../.cache/target_f32 RUSTFLAGS="--cfg corgi_verif" cargo build --offline --quiet --features f32 2>/dev/null ) || true
 echo setup-ok
